@@ -24,6 +24,7 @@ META = {
              'own-status node or a gated node; distinct = digest(description)'),
     'assumptions': ['reference fixed point in mtv/agraph.py', 'own-status labelling of defense / exist / notExist as documented by the analyzer'],
     'shards': {'quick': 8, 'thorough': 16},
+    'quotas_fixed': ['exhaustive-2-node-graph-orders'],
     'quotas': {
         'quick': {'exhaustive-2-node-graph-orders': 3000, 'three-node-graph-orders': 800, 'random-graph-orders': 1500,
                   'generated-graph-orders': 100, 'class:cycle': 200, 'class:self-loop': 200, 'class:gated-parent-of-and': 100,
@@ -34,7 +35,7 @@ META = {
 }
 SECONDS = {'quick': 60, 'thorough': 600}
 RANDOM = {'quick': 2400, 'thorough': 400000}
-GENERATED = {'quick': 240, 'thorough': 20000}
+GENERATED = {'quick': 720, 'thorough': 40000}
 
 
 def analyse(desc, order, child_edges=None):
@@ -243,7 +244,7 @@ def run(rng, res, tier, shard, nshards):
     for _ in range(GENERATED[tier] // nshards):
         if not budget.more():
             break
-        case = gen_case(rng, Cfg(max_depth=2), MCfg(attackers=0.0), corelang_share=0.1)
+        case = gen_case(rng, Cfg(max_depth=2, max_assets=4), MCfg(attackers=0.0, max_assets=5), corelang_share=0.04)
         f = check_generated(case, rng, res)
         res.case(digest([case['spec'], case['amodel']]))
         if f:
